@@ -44,6 +44,14 @@ def field_case(draw):
         spec["orientation"] = [[0.0, 0.0, 0.0, 1.0]]
     body = geom.body_from_spec(spec)
     obs = draw(gen.region_observers(spec, n_min=2, n_max=6, clear=1e-6))
+    # every magnet gets at least one observer well inside the material, and every body with a hole one in the hole:
+    # the two places where "J = polarization inside, zero outside" says different things for neighbouring points
+    if body.kind == "magnet":
+        for reg in ("inside", "bore"):
+            if reg in geom.regions_for(body):
+                p = geom.observer_in_region(body, reg, draw(gen.uniforms(8)), clear=1e-3)
+                if p is not None:
+                    obs.append({"region": reg, "local": [float(x) for x in p]})
     nspec = draw(st.integers(2, 6))
     for _ in range(nspec):
         kind = draw(st.sampled_from(geom.SPECIAL_KINDS))
@@ -87,6 +95,8 @@ def _run_field(case, ctx):
     _, rot = build.pose_at(spec, 0)
     out = []
     ctx.label(f"class:{cls}")
+    if cls == "CylinderSegment" and getattr(body, "full", False):
+        ctx.label("segment:full_turn_ring" if body.r1 > 0 else "segment:full_turn_solid")
     F = {}
     for X in "BHJM":
         fn = getattr(magpy, "get" + X)
@@ -105,7 +115,11 @@ def _run_field(case, ctx):
             if r is not None and r.ok:
                 F[X] = np.array(rows)
         if X not in F:
-            return [Violation({"sub": "call_raised", "cls": cls, "field": X, **exc_sig(r.exc)}, repr(r.exc)[:300])]
+            # an exception from a field call is C15's subject (finite result, no exception); here there is
+            # nothing to relate, the case is counted and skipped
+            ctx.label("call_raised_not_judged_here")
+            ctx.add_inconclusive()
+            return []
     B, H, J, M = F["B"], F["H"], F["J"], F["M"]
     dist = body.dist(loc) / body.L
     inside = body.inside(loc) if body.kind == "magnet" else np.zeros(len(loc), dtype=bool)
@@ -120,7 +134,10 @@ def _run_field(case, ctx):
         if not np.all(np.isfinite(row)):
             ctx.label("nonfinite_row_skipped")  # C15 judges finiteness
             continue
-        big = max(np.max(np.abs(B[i])), mu0 * np.max(np.abs(H[i])), np.max(np.abs(J[i])), 1e-300)
+        # the residual is judged against the larger of the terms and the natural magnitude of the source's field
+        # at that distance: where the field cancels to rounding noise (a wire running there and back, a point of
+        # symmetry) B and mu0*H are two differently rounded zeros
+        big = max(np.max(np.abs(B[i])), mu0 * np.max(np.abs(H[i])), np.max(np.abs(J[i])), _natural_B(spec, body, dist[i], mu0), 1e-300)
         r1 = np.max(np.abs(B[i] - mu0 * H[i] - J[i])) / big
         # far field: B and H are each sums of large cancelling terms (documented loss ~ eps*(d/L)^3)
         if r1 > 1e-12 + 10 * np.finfo(float).eps * dist[i] ** 3:
@@ -158,7 +175,7 @@ def _run_field(case, ctx):
                     v = np.asarray(r.value).reshape(-1, 3)
                     sc = max(float(np.max(np.abs(F[X]))) if np.all(np.isfinite(F[X])) else 0.0, 1e-300)
                     with np.errstate(invalid="ignore"):
-                        if np.any(np.abs(v - F[X]) > 1e-12 * sc):
+                        if np.any(np.abs(v - F[X]) > 1e-10 * sc):
                             worst = int(np.nanargmax(np.max(np.abs(v - F[X]), axis=1)))
                             out.append(Violation({"sub": "in_out_truthful_differs", "cls": cls, "in_out": label,
                                                   "coplanar_face_planes": _coplanar(body, loc[worst])},
@@ -185,6 +202,19 @@ def _coplanar(body, p):
         if not any(abs(abs(float(np.dot(n, m))) - 1) < 1e-9 for m in planes):
             planes.append(n)
     return "0" if not planes else ("1" if len(planes) == 1 else ">=2")
+
+
+def _natural_B(spec, body, d_rel, mu0):
+    """upper bound for the magnitude of B of this source at distance d_rel*L (used as a floor of comparison scales)"""
+    d = max(float(d_rel), 1e-3)
+    cls = spec["cls"]
+    if "polarization" in spec:
+        return float(np.linalg.norm(spec["polarization"])) * min(1.0, d**-3)
+    if cls in ("Circle", "Polyline"):
+        return mu0 * abs(float(spec["current"])) / body.L * min(1e3, 1.0 / d) if d < 1 else mu0 * abs(float(spec["current"])) / body.L / d**2
+    if cls == "Dipole":
+        return mu0 * float(np.linalg.norm(spec["moment"])) / (4 * np.pi * (d * body.L) ** 3)
+    return 0.0
 
 
 def _where(reg, o, d):
